@@ -20,7 +20,9 @@ type Options struct {
 	SkipField    func(typ, field string) bool
 }
 
-func All() Options { return Options{Descriptions: true, Deprecations: true, Directives: true, Roots: true} }
+func All() Options {
+	return Options{Descriptions: true, Deprecations: true, Directives: true, Roots: true}
+}
 
 func builtinType(n string) bool {
 	if strings.HasPrefix(n, "__") {
